@@ -128,7 +128,9 @@ def seed_runs_collect(procs, acc):
     acc.add("seed_run_transitions", sum(o["transitions"] for o in outs))
     acc.evals += sum(o["transitions"] for o in outs)
     if len(digests) != 1:
-        acc.violation(PID, "SEED:digest", f"exploration digests differ across hash seeds / id salts: {[(o['hashseed'], o['salt'], o['digest'][:12]) for o in outs]}",
+        bad = sorted({k for o in outs for k in o["per_class"] if o["per_class"][k] != outs[0]["per_class"][k]})
+        acc.violation(PID, "SEED:digest", f"the same exploration gives different observations in processes that differ only in hash seed, rating ids and "
+                      f"pre-history (decoy calls on OTHER model objects): classes {bad}; runs {[(o['hashseed'], o['prelude'], o['digest'][:12]) for o in outs]}",
                       {"engine": "SEED", "seeds": [o["hashseed"] for o in outs]})
     return outs
 
@@ -161,11 +163,11 @@ def main(ctx, t0):
     procs = seed_runs_start(ctx)
     # ---- E2
     searches = [(k, c, "full") for k in spaces.KINDS for c in e2.MODEL_CFGS]
-    stats, acc = e2.explore(searches, 2, ctx)
+    stats, acc = e2.explore(searches, 2, ctx, invs=INVS)
     stats3 = {}
     if ctx.thorough:
         searches3 = [(k, c, "reduced") for k in spaces.KINDS for c in ("default", "limit")]
-        stats3, acc3 = e2.explore(searches3, 3, ctx, chunk=32)
+        stats3, acc3 = e2.explore(searches3, 3, ctx, chunk=32, invs=INVS)
         acc.merge(acc3)
     # keep only the invariants this property owns
     keep = core.Acc()
@@ -217,3 +219,13 @@ def main(ctx, t0):
         "seed_runs": seed_out,
     }
     return core.finish(PID, ctx, LEVEL, keep, RULE, extra, ASSUMPTIONS, t0)
+
+
+def replay_unit(unit, ctx):
+    if unit and unit[0] in ("e3", "census", "free"):
+        return dispatch(unit, ctx)
+    core.deterministic_ids(0)
+    acc = e2._expand(unit, ctx)
+    for v in acc.violations:
+        v["key"] = "E2:" + v["key"]
+    return acc
